@@ -34,31 +34,32 @@ pub fn cfg_for(prop: &'static str) -> FsxCfg {
     match prop {
         "C01" => base,
         "C02" => FsxCfg {
-            profile: Profile { remount: 2, ..Profile::mixed() },
+            profile: Profile { remount: 2, open_dir: 5, ..Profile::mixed() },
+            bias: VolBias { full_dirs: true, ..VolBias::default() },
             steps: (1, 45),
             ..base
         },
         "C03" => FsxCfg {
-            profile: Profile { invalid_names: 1, ..Profile::mixed() },
-            bias: VolBias { tight: true, ..VolBias::default() },
+            profile: Profile { invalid_names: 1, open_dir: 5, ..Profile::mixed() },
+            bias: VolBias { tight: true, full_dirs: true, ..VolBias::default() },
             steps: (1, 45),
             ..base
         },
         "C04" => FsxCfg {
-            profile: Profile { remount: 0, ..Profile::mixed() },
-            bias: VolBias { tight: true, ..VolBias::default() },
+            profile: Profile { remount: 0, open_dir: 5, ..Profile::mixed() },
+            bias: VolBias { tight: true, full_dirs: true, ..VolBias::default() },
             steps: (1, 40),
             ..base
         },
         "C05" => FsxCfg {
-            profile: Profile { read: 2, seek: 4, delete: 10, mkdir: 4, open: 18, close: 14, write: 22, check_all: 1, ..Profile::mixed() },
-            bias: VolBias { tight: true, ..VolBias::default() },
+            profile: Profile { read: 2, seek: 4, delete: 10, mkdir: 4, open: 18, close: 14, write: 22, check_all: 1, open_dir: 5, ..Profile::mixed() },
+            bias: VolBias { tight: true, full_dirs: true, ..VolBias::default() },
             steps: (1, 50),
             ..base
         },
         "C16" => FsxCfg {
             profile: Profile { read: 2, seek: 4, delete: 8, mkdir: 4, open: 18, close: 10, flush: 8, close_volume: 4, open_volume: 4, open_root: 4, write: 22, check_all: 0, ..Profile::mixed() },
-            bias: VolBias { pick: FatPick::Fat32, tight: true, ..VolBias::default() },
+            bias: VolBias { pick: FatPick::Fat32, tight: true, full_dirs: true, ..VolBias::default() },
             steps: (1, 45),
             ..base
         },
@@ -435,6 +436,7 @@ pub fn tree_classes(case: &Case) -> Vec<String> {
             v.push(format!("vol:fat16-root-free-slots-{}", match vs.root_pad_free { Some(0) => "0", Some(1) => "1", Some(_) => "2+", None => "many" }));
         }
         let (mut lfn, mut del, mut multi_dir, mut multi_file, mut depth_max, mut ro) = (false, false, vs.root_extra > 0, false, 0u32, false);
+        let mut full_multi = vs.root_extra & 0x80 != 0 && vs.root_pad_free.is_some();
         let cb = g.spc as u32 * 512;
         walk(&vs.root, 0, &mut |s, d| {
             depth_max = depth_max.max(d);
@@ -448,9 +450,12 @@ pub fn tree_classes(case: &Case) -> Vec<String> {
                     }
                     pre
                 }
-                Slot::Dir { pre, extra, .. } => {
+                Slot::Dir { pre, extra, pad_free, .. } => {
                     if *extra > 0 {
                         multi_dir = true;
+                    }
+                    if *extra & 0x80 != 0 && pad_free.is_some() {
+                        full_multi = true;
                     }
                     pre
                 }
@@ -464,7 +469,7 @@ pub fn tree_classes(case: &Case) -> Vec<String> {
                 }
             }
         });
-        for (flag, name) in [(lfn, "tree:has-lfn-run"), (del, "tree:has-deleted-slot"), (multi_dir, "tree:multi-cluster-directory"), (multi_file, "tree:multi-cluster-file"), (ro, "tree:has-read-only-file")] {
+        for (flag, name) in [(lfn, "tree:has-lfn-run"), (del, "tree:has-deleted-slot"), (multi_dir, "tree:multi-cluster-directory"), (full_multi, "tree:filled-multi-cluster-directory"), (multi_file, "tree:multi-cluster-file"), (ro, "tree:has-read-only-file")] {
             if flag {
                 v.push(name.into());
             }
